@@ -516,6 +516,9 @@ def _sig_hist(hist):
     return ';'.join('/'.join(map(str, r)) for r in hist)
 
 
+_CORE3 = set()
+
+
 def histories(tier):
     a1 = alphabet(2)
     a_small = alphabet(1)
@@ -527,9 +530,12 @@ def histories(tier):
              ('pk', 'alice', 'ka', 'good'), ('pw', 'alice', 'wrong'), ('kbd', 'alice'), ('kbdresp', 'alice', 'right'),
              ('kbdresp', 'bob', 'right'), ('cert', 'alice', 'good'), ('kbd', 'bob')]
     hs += [[r1, r2, r3] for r1 in core3 for r2 in core3 for r3 in core3]
+    _CORE3.update(core3)
     if tier == 'thorough':
         core4 = core3[:5]
         hs += [[a, b, c, d] for a in core4 for b in core4 for c in core4 for d in core4]
+        # length 3 with the full alphabet at both ends
+        hs += [[r1, r2, r3] for r1 in a1 for r2 in a_small for r3 in a1 if [r1, r2, r3] not in hs[:0]]
     return [[list(r) for r in h] for h in hs]
 
 
@@ -545,7 +551,7 @@ def main(tier, seed):
     t0 = core.now()
     bound = 3 if tier == 'quick' else 4
     hs = histories(tier)
-    jobs = [(h, bound if len(h) < 3 or tier == 'thorough' else min(bound, 2), False) for h in hs]
+    jobs = [(h, bound if len(h) < 3 or (tier == 'thorough' and len(h) == 3 and all(tuple(r) in _CORE3 for r in h)) else min(bound, 2), False) for h in hs]
     jobs += [(h, 2 if tier == 'quick' else 3, True) for h in hs if len(h) <= 2]
     # servers that take the authorized keys of each user from an sshd-style configuration (reloaded when the
     # user name changes): user switches with keys and certificates
